@@ -209,6 +209,129 @@ func translate(fd *ast.FuncDecl, recv string) []string {
 	return out
 }
 
+// analyseVFSClose: the body of VFS.Close must be a single return of the resource's Close(), optionally wrapped in
+// ConvertFileSystemError (which maps nil to nil and non-nil to non-nil).
+func analyseVFSClose(files []string) string {
+	for _, f := range files {
+		if strings.HasSuffix(f, "_test.go") {
+			continue
+		}
+		af, err := parser.ParseFile(fset, f, nil, parser.SkipObjectResolution)
+		if err != nil {
+			continue
+		}
+		for _, d := range af.Decls {
+			fd, ok := d.(*ast.FuncDecl)
+			if !ok || fd.Recv == nil || fd.Name.Name != "Close" || fd.Body == nil || len(fd.Recv.List) != 1 {
+				continue
+			}
+			st, ok := fd.Recv.List[0].Type.(*ast.StarExpr)
+			if !ok {
+				continue
+			}
+			if id, ok := st.X.(*ast.Ident); !ok || id.Name != "VFS" {
+				continue
+			}
+			if len(fd.Body.List) != 1 {
+				return "VUnknown"
+			}
+			r, ok := fd.Body.List[0].(*ast.ReturnStmt)
+			if !ok || len(r.Results) != 1 {
+				return "VUnknown"
+			}
+			e := r.Results[0]
+			if c, ok := e.(*ast.CallExpr); ok {
+				if id, ok := c.Fun.(*ast.Ident); ok && id.Name == "ConvertFileSystemError" && len(c.Args) == 1 {
+					e = c.Args[0]
+				}
+			}
+			c, ok := e.(*ast.CallExpr)
+			if !ok || len(c.Args) != 0 {
+				return "VUnknown"
+			}
+			sel, ok := c.Fun.(*ast.SelectorExpr)
+			if !ok || sel.Sel.Name != "Close" {
+				return "VUnknown"
+			}
+			inner, ok := sel.X.(*ast.SelectorExpr)
+			if !ok || inner.Sel.Name != "resourceInUse" {
+				return "VUnknown"
+			}
+			return "VPropagate"
+		}
+	}
+	return "VUnknown"
+}
+
+// analyseResourceClose: in closeableResource.Close, walking the top-level statements in order, every return met
+// before the top-level assignment `c.closed = true` must be `return err` inside `if err != nil`, that assignment must
+// exist, and the last statement must be `return nil`.
+func analyseResourceClose(file string) string {
+	af, err := parser.ParseFile(fset, file, nil, parser.SkipObjectResolution)
+	if err != nil {
+		return "RUnknown"
+	}
+	for _, d := range af.Decls {
+		fd, ok := d.(*ast.FuncDecl)
+		if !ok || fd.Recv == nil || fd.Name.Name != "Close" || fd.Body == nil || len(fd.Recv.List) != 1 {
+			continue
+		}
+		st, ok := fd.Recv.List[0].Type.(*ast.StarExpr)
+		if !ok {
+			continue
+		}
+		if id, ok := st.X.(*ast.Ident); !ok || id.Name != "closeableResource" {
+			continue
+		}
+		flagSet := false
+		good := true
+		for i, s := range fd.Body.List {
+			if as, ok := s.(*ast.AssignStmt); ok && len(as.Lhs) == 1 && len(as.Rhs) == 1 {
+				if sel, ok := as.Lhs[0].(*ast.SelectorExpr); ok && sel.Sel.Name == "closed" {
+					if id, ok := as.Rhs[0].(*ast.Ident); ok && id.Name == "true" {
+						flagSet = true
+					} else {
+						good = false
+					}
+					continue
+				}
+			}
+			if i == len(fd.Body.List)-1 {
+				r, ok := s.(*ast.ReturnStmt)
+				if !ok || len(r.Results) != 1 || !flagSet {
+					good = false
+				} else if id, ok := r.Results[0].(*ast.Ident); !ok || id.Name != "nil" {
+					good = false
+				}
+				continue
+			}
+			if !flagSet {
+				// returns before the flag: only `return err` directly inside `if err != nil { ... }`
+				ast.Inspect(s, func(x ast.Node) bool {
+					is, ok := x.(*ast.IfStmt)
+					if ok {
+						if how, ok2 := isErrNotNilReturn(is, "err"); ok2 {
+							if how != "err" {
+								good = false
+							}
+							return false
+						}
+					}
+					if _, ok := x.(*ast.ReturnStmt); ok {
+						good = false
+					}
+					return true
+				})
+			}
+		}
+		if good && flagSet {
+			return "RCloseThenFlag"
+		}
+		return "RUnknown"
+	}
+	return "RUnknown"
+}
+
 func main() {
 	repo := os.Getenv("VERIF_REPO")
 	if repo == "" {
@@ -275,6 +398,8 @@ func main() {
 		die(token.NoPos, "the guard method %s is not declared", guardName)
 	}
 	sort.Slice(table, func(i, j int) bool { return table[i].name < table[j].name })
+	vfsCloseShape := analyseVFSClose(files)
+	resCloseShape := analyseResourceClose(filepath.Join(repo, "utils", "resource", "resource.go"))
 	var b strings.Builder
 	b.WriteString("(* GENERATED by translator-c07/cmd/guards2coq from utils/filesystem/*.go — do not edit.\n")
 	b.WriteString("   One abstract statement list per method of *VFS (see GuardTypes.v). *)\n")
@@ -291,7 +416,11 @@ func main() {
 		}
 		fmt.Fprintf(&b, "  (* %s *) mkM \"%s\" %s [%s]%s\n", e.where, e.name, ex, strings.Join(e.body, "; "), sep)
 	}
-	b.WriteString("].\n")
+	b.WriteString("].\n\n")
+	b.WriteString("(* files.go VFS.Close: VPropagate = the body is `return [ConvertFileSystemError(]fs.resourceInUse.Close()[)]` *)\n")
+	fmt.Fprintf(&b, "Definition vfs_close_shape : vshape := %s.\n", vfsCloseShape)
+	b.WriteString("(* resource.go closeableResource.Close: RCloseThenFlag = every return before `c.closed = true` returns the non-nil\n   error of the underlying Close, and the flag assignment precedes the final `return nil` *)\n")
+	fmt.Fprintf(&b, "Definition resource_close_shape : rshape := %s.\n", resCloseShape)
 	content := b.String()
 	if old, err := os.ReadFile(outFile); err == nil && string(old) == content {
 		return
